@@ -334,9 +334,137 @@ static void run_c07(uint64_t c) {
     }
 }
 
+// ------------------------------------------------------------------ C06: differential dump
+template <typename Char_T>
+static void dump(const Value<Char_T> &v, std::string &o) {
+    char b[64];
+    if (v.IsObject()) {
+        o += '{';
+        const SizeT n = v.Size();
+        for (SizeT i = 0; i < n; ++i) {
+            const Value<Char_T>  *c = v.GetValue(i);
+            const String<Char_T> *k = v.GetKey(i);
+            if (c == nullptr || k == nullptr) continue;
+            o += 'K';
+            for (SizeT j = 0; j < k->Length(); ++j) {
+                snprintf(b, sizeof(b), sizeof(Char_T) == 1 ? "%02x" : (sizeof(Char_T) == 2 ? "%04x" : "%08x"),
+                         unsigned(k->First()[j]) & (sizeof(Char_T) == 1 ? 0xFFu : (sizeof(Char_T) == 2 ? 0xFFFFu : 0xFFFFFFFFu)));
+                o += b;
+            }
+            o += ':';
+            dump(*c, o);
+            o += ',';
+        }
+        o += '}';
+    } else if (v.IsArray()) {
+        o += '[';
+        const SizeT n = v.Size();
+        for (SizeT i = 0; i < n; ++i) {
+            const Value<Char_T> *c = v.GetValue(i);
+            if (c == nullptr) o += '?';
+            else dump(*c, o);
+            o += ',';
+        }
+        o += ']';
+    } else if (v.IsString()) {
+        const Char_T *s;
+        SizeT         n;
+        v.SetCharAndLength(s, n);
+        o += 'S';
+        for (SizeT j = 0; j < n; ++j) {
+            snprintf(b, sizeof(b), sizeof(Char_T) == 1 ? "%02x" : (sizeof(Char_T) == 2 ? "%04x" : "%08x"),
+                     unsigned(s[j]) & (sizeof(Char_T) == 1 ? 0xFFu : (sizeof(Char_T) == 2 ? 0xFFFFu : 0xFFFFFFFFu)));
+            o += b;
+        }
+    } else if (v.IsUInt64()) {
+        snprintf(b, sizeof(b), "U%llu", (unsigned long long)v.GetUInt64());
+        o += b;
+    } else if (v.IsInt64()) {
+        snprintf(b, sizeof(b), "I%lld", (long long)v.GetInt64());
+        o += b;
+    } else if (v.IsDouble()) {
+        double   d = v.GetDouble();
+        uint64_t bits;
+        memcpy(&bits, &d, 8);
+        snprintf(b, sizeof(b), "D%016llx", (unsigned long long)bits);
+        o += b;
+    } else if (v.IsTrue()) {
+        o += 'T';
+    } else if (v.IsFalse()) {
+        o += 'F';
+    } else if (v.IsNull()) {
+        o += 'N';
+    } else {
+        o += '?';
+    }
+}
+
+template <typename Char_T>
+struct C06State {
+    StringStream<Char_T> shared; // scratch stream reused across documents (and after rejected documents)
+};
+
+template <typename Char_T>
+static void c06_one(const vf::CaseFile &cf, size_t c, size_t field, const char *enc, FILE *out, C06State<Char_T> &st, vf::Rng &r) {
+    size_t               nbytes;
+    const unsigned char *p = cf.field(c, field, nbytes);
+    size_t               n = nbytes / sizeof(Char_T);
+    std::vector<Char_T>  w(n);
+    if (n) memcpy(w.data(), p, n * sizeof(Char_T));
+    {
+        vf::ExactBuf<Char_T> b(w.data(), n);
+        Value<Char_T>        v = JSON::Parse(b.p, SizeT(b.n));
+        std::string          o;
+        dump(v, o);
+        fprintf(out, "%zu %s fresh %s\n", c, enc, o.c_str());
+        vf::count("c06_parses");
+    }
+    {
+        // history variant: sometimes a rejected document goes through the shared scratch stream first
+        unsigned pre = r.below(4);
+        if (pre == 0) {
+            static const char *bad[] = {"[\"ab\\q\"]", "{\"k\\x\":1}", "[\"zz\\u12\"]", "[\"a\\", "{\"abc\\"};
+            const char        *t     = bad[r.below(5)];
+            std::vector<Char_T> bw;
+            for (const char *q = t; *q; ++q) bw.push_back(Char_T(*q));
+            Value<Char_T> bv = JSON::Parse(st.shared, bw.data(), SizeT(bw.size()));
+            if (!bv.IsUndefined()) vf::fail("c06:invalid-escape-accepted", "text=%s", t);
+            vf::count("c06_rejected_before");
+        }
+        vf::ExactBuf<Char_T> b(w.data(), n);
+        Value<Char_T>        v = JSON::Parse(st.shared, b.p, SizeT(b.n));
+        std::string          o;
+        dump(v, o);
+        fprintf(out, "%zu %s %s %s\n", c, enc, pre == 0 ? "shared-after-reject" : "shared", o.c_str());
+        vf::count("c06_parses");
+    }
+}
+
 int main(int argc, char **argv) {
     vf::Args    a    = vf::parse_args(argc, argv);
     std::string mode = a.opts("mode", "c05");
+    if (mode == "c06") {
+        vf::CaseFile       cf(a.casefile);
+        std::string        op = a.outfile + "." + std::to_string(a.from);
+        FILE              *out = fopen(op.c_str(), "w");
+        C06State<char>     s8;
+        C06State<char16_t> s16;
+        C06State<char32_t> s32;
+        C06State<wchar_t>  sw;
+        if (!out) return 2;
+        for (uint64_t c = a.from; c < a.to && c < cf.size(); ++c) {
+            vf::begin_case(c);
+            vf::Rng r(vf::g_seed, c);
+            c06_one<char>(cf, c, 0, "utf8", out, s8, r);
+            c06_one<char16_t>(cf, c, 1, "utf16", out, s16, r);
+            c06_one<char32_t>(cf, c, 2, "utf32", out, s32, r);
+            if ((c & 3) == 0) c06_one<wchar_t>(cf, c, 2, "utf32w", out, sw, r);
+            fflush(out);
+            vf::end_case(false);
+        }
+        fclose(out);
+        return vf::finish(a);
+    }
     for (uint64_t c = a.from; c < a.to; ++c) {
         vf::begin_case(c);
         if (mode == "c05") run_c05(c);
